@@ -68,6 +68,10 @@ class Check:
     max_procs: int = NPROC
     exhaustive: bool = False
     describe: str = ""
+    # Watchdog per case (seconds of wall clock, SIGALRM). A hit is "inconclusive" (discard) unless the check declares
+    # that its cases are tiny pure computations (margin >= 10^4 over the normal cost): then it is a non-termination.
+    case_timeout: float = 300.0
+    timeout_is_violation: bool = False
 
 
 class HarnessError(Exception):
@@ -111,6 +115,46 @@ def load_module(prop: str):
     return importlib.import_module(f"pbt.props.{prop.lower()}")
 
 
+# ----------------------------------------------------------------------------- watchdog
+class CaseTimeout(BaseException):
+    pass
+
+
+class _Guarded:
+    """A view of a Check whose execute() is protected by the per-case watchdog."""
+
+    def __init__(self, check, execute):
+        self._check = check
+        self.execute = execute
+
+    def __getattr__(self, name):
+        return getattr(self._check, name)
+
+
+def run_with_watchdog(check, execute, case):
+    import signal
+
+    def on_alarm(signum, frame):
+        raise CaseTimeout()
+
+    timeout = float(os.environ.get("VERIF_CASE_TIMEOUT", check.case_timeout))
+    old = signal.signal(signal.SIGALRM, on_alarm)
+    signal.setitimer(signal.ITIMER_REAL, timeout)
+    try:
+        return execute(case)
+    except CaseTimeout:
+        res = CaseResult()
+        if check.timeout_is_violation:
+            res.violations.append(Violation("does_not_terminate", f"no result after {timeout:.0f}s (typical cost: milliseconds); case={canon(case)[:3000]}",
+                                            f"{check.name}.does_not_terminate"))
+        else:
+            res.discard = "case_timeout_inconclusive"
+        return res
+    finally:
+        signal.setitimer(signal.ITIMER_REAL, 0)
+        signal.signal(signal.SIGALRM, old)
+
+
 # ----------------------------------------------------------------------------- worker
 def _worker(args):
     prop, check_name, tier, seed, shard, nshards, n_examples, shrink_cap = args
@@ -135,6 +179,12 @@ def _worker(args):
         check = next(c for c in mod.CHECKS if c.name == check_name)
         known = load_known(prop)
         state = {"first_fail_t": None, "best": None}
+        _raw_execute = check.execute
+
+        def guarded_execute(case):
+            return run_with_watchdog(check, _raw_execute, case)
+
+        check = _Guarded(check, guarded_execute)
 
         def account(case, res: CaseResult):
             out["evaluations"] += 1
@@ -271,8 +321,8 @@ def run_property(prop: str, tier: str, seed: int, only: Optional[str] = None) ->
     mod = load_module(prop)
     known = load_known(prop)
     shrink_cap = 45 if tier == "quick" else 200
-    if hasattr(mod, "prepare"):
-        mod.prepare()  # one-off work in the parent (e.g. building the C++ driver) before the workers start
+    if hasattr(mod, "prepare_parent"):
+        mod.prepare_parent()  # one-off work in the parent (e.g. building the C++ driver) before the workers start
     jobs = []
     for check in mod.CHECKS:
         if only and check.name != only:
@@ -423,7 +473,7 @@ def _replay_corpus(prop, mod, known, only):
             check = next((c for c in mod.CHECKS if c.name == data["check"]), None)
             if check is None:
                 continue
-            res = check.execute(data["case"])
+            res = run_with_watchdog(check, check.execute, data["case"])
             out["evaluations"] += 1
             out["counters"]["corpus_replays"] = out["counters"].get("corpus_replays", 0) + 1
             if res.discard:
@@ -452,7 +502,7 @@ def replay(path: str) -> int:
     mod = load_module(prop)
     check = next(c for c in mod.CHECKS if c.name == data["check"])
     known = load_known(prop)
-    res = check.execute(data["case"])
+    res = run_with_watchdog(check, check.execute, data["case"])
     status = 0
     if res.discard:
         print(f"replay discarded: {res.discard}")
